@@ -506,6 +506,10 @@ TARGETS = {
     "SrcDescrPrint": ("bond.py", translate_sys.translate_descrprint),
     "SrcPrint": ("token.py", translate_sys.translate_printers),
     "SrcFFSel": ("forcefield_helper.py", translate_sys.translate_ffsel),
+    "SrcAGen": ("graph_generate.py", translate_sys.translate_agen),
+    "SrcAGraph": ("stochastic_atom_graph.py", translate_sys.translate_agraph),
+    "SrcDistParams": ("distribution.py", translate_sys.translate_distparams),
+    "SrcProb": ("mol_prob.py", translate_sys.translate_prob),
     "SrcAttach": ("mol_gen.py", translate_sys.translate_attach),
     "SrcRGraph": ("molecule.py", translate_sys.translate_rgraph),
     "SrcCore": ("core.py", translate_sys.translate_core),
